@@ -698,6 +698,8 @@ def find_guards(toks, sites):
         assert C      an earlier statement `assert!(C ..)` in an enclosing block
         in-if C       the site lies in the then-block of `if C { .. }` (`else if` too)       C holds at the site
         in-while C    the site lies in the body of `while C { .. }`
+        in-else C     the site lies in the else part of `if C { .. } else ..` (a later condition of the chain, a later
+                      block, the final else block): C is false at the site
         arm C         the site lies in the match arm `pat if C => ..`
 
     and no identifier the comparison shares with the site is assigned (`x = `, `x += `, `let x`) between the comparison and
@@ -764,6 +766,48 @@ def find_guards(toks, sites):
                     return True
         return False
 
+    def owner_if(b, lo):
+        """b is a `{`: the `if` / `while` token whose block it opens (None when it is another kind of block)"""
+        k = b - 1
+        while k > lo:
+            t = toks[k]
+            if t.kind == "punct" and t.text in (")", "]"):
+                k = opener.get(k, lo)
+            elif t.kind == "punct" and t.text in ("{", "}", ";", "=>"):
+                return None
+            elif t.kind == "ident" and t.text in ("if", "while"):
+                return k if cond_until_brace(k)[1] == b else None
+            k -= 1
+        return None
+
+    def else_chain(start, lo, add):
+        """`start` is an `if` token or the `{` of an else block: every `if C { .. } else` in front of it contributes `in-else C`"""
+        cur = start
+        while cur - 2 > lo and toks[cur - 1].kind == "ident" and toks[cur - 1].text == "else" and toks[cur - 2].text == "}":
+            pb = opener.get(cur - 2)
+            if pb is None:
+                return
+            oi = owner_if(pb, lo)
+            if oi is None or toks[oi].text != "if":
+                return
+            cond, _ = cond_until_brace(oi)
+            add("in-else", cond, cur)
+            cur = oi
+
+    def arm_guard(arrow, lo, add):
+        """arrow is the `=>` of a match arm: `pat if C =>` contributes `arm C`"""
+        m = arrow - 1
+        while m > lo:
+            u = toks[m]
+            if u.kind == "punct" and u.text in (")", "]", "}"):
+                m = opener.get(m, lo)
+            elif u.kind == "punct" and u.text in ("{", ";", ",", "=>"):
+                return
+            elif u.kind == "ident" and u.text == "if":
+                add("arm", toks[m + 1:arrow], arrow)
+                return
+            m -= 1
+
     for s in sites:
         if s.at < 0 or s.fn_close < 0 or s.fn_close not in opener:
             continue
@@ -786,22 +830,17 @@ def find_guards(toks, sites):
         o = encl[s.at]
         while o is not None and o >= fn_open:
             if toks[o].text == "{":
-                # (a) the block itself is the body of `if C` / `while C`
-                j = o - 1
-                depth_ok = True
-                k = j
-                while k > fn_open:
-                    t = toks[k]
-                    if t.kind == "punct" and t.text in (")", "]"):
-                        k = opener.get(k, fn_open)
-                    elif t.kind == "punct" and t.text in ("{", "}", ";", "=>"):
-                        break
-                    elif t.kind == "ident" and t.text in ("if", "while"):
-                        cond, b = cond_until_brace(k)
-                        if b == o:
-                            add("in-" + t.text, cond, o)
-                        break
-                    k -= 1
+                # (a) the block itself is the body of `if C` / `while C`, or the else part of `if C { .. } else ..`
+                oi = owner_if(o, fn_open)
+                if oi is not None:
+                    cond, _ = cond_until_brace(oi)
+                    add("in-" + toks[oi].text, cond, o)
+                    if toks[oi].text == "if":
+                        else_chain(oi, fn_open, add)
+                else:
+                    else_chain(o, fn_open, add)
+                    if o - 1 > fn_open and toks[o - 1].text == "=>":
+                        arm_guard(o - 1, fn_open, add)      # `pat if C => { <site> }`
                 # (b) earlier statements of this block
                 j = o + 1
                 while j < s.at:
@@ -840,6 +879,19 @@ def find_guards(toks, sites):
                             continue
                     j += 1
             o = encl[o]
+        # (c') the site lies in the CONDITION of an `else if`: the earlier conditions of the chain are false
+        k = s.at - 1
+        while k > fn_open:
+            t = toks[k]
+            if t.kind == "punct" and t.text in (")", "]", "}"):
+                k = opener.get(k, fn_open)
+            elif t.kind == "punct" and t.text in ("{", ";"):
+                break
+            elif t.kind == "ident" and t.text == "if":
+                if cond_until_brace(k)[1] > s.at:
+                    else_chain(k, fn_open, add)
+                break
+            k -= 1
         # (c) match arm `pat if C => <site>`: walk left from the site over balanced brackets to the `=>` of its arm
         k = s.at - 1
         while k > fn_open:
@@ -918,8 +970,8 @@ def scan(repo):
 
 # ---------------------------------------------------------------------------------------------------------- classification
 
-GUARD_KINDS = ("if", "while", "assert", "in-if", "in-while", "arm")
-CLASS_RE = re.compile(r"^(OPEN|test-only|range:.{8,}|guard:(?:if|while|assert|in-if|in-while|arm) .+|model:[A-Za-z0-9_.'!?]+@[A-Za-z0-9_.'!?]+(?: .*)?)$", re.S)
+GUARD_KINDS = ("if", "while", "assert", "in-if", "in-while", "in-else", "arm")
+CLASS_RE = re.compile(r"^(OPEN|test-only|range:.{8,}|guard:(?:if|while|assert|in-if|in-while|in-else|arm) .+|model:[A-Za-z0-9_.'!?]+@[A-Za-z0-9_.'!?]+(?: .*)?)$", re.S)
 GUARD_SEP = " -- "
 
 
